@@ -3244,11 +3244,18 @@ template <class S>
 IMATH_HOSTDEVICE IMATH_CONSTEXPR14 inline const Matrix33<T>&
                  Matrix33<T>::setShear (const S& xy) IMATH_NOEXCEPT
 {
+    //
+    // xy is passed by reference and may refer to an element of
+    // this matrix: read it before any element is overwritten.
+    //
+
+    const S h = xy;
+
     x[0][0] = 1;
     x[0][1] = 0;
     x[0][2] = 0;
 
-    x[1][0] = xy;
+    x[1][0] = h;
     x[1][1] = 1;
     x[1][2] = 0;
 
@@ -3287,12 +3294,15 @@ IMATH_HOSTDEVICE IMATH_CONSTEXPR14 inline const Matrix33<T>&
     //
     // In this case, we don't need a temp. copy of the matrix
     // because we never use a value on the RHS after we've
-    // changed it on the LHS.
+    // changed it on the LHS.  The argument is copied first: it is
+    // passed by reference and may refer to an element of row 1.
     //
 
-    x[1][0] += xy * x[0][0];
-    x[1][1] += xy * x[0][1];
-    x[1][2] += xy * x[0][2];
+    const S h = xy;
+
+    x[1][0] += h * x[0][0];
+    x[1][1] += h * x[0][1];
+    x[1][2] += h * x[0][2];
 
     return *this;
 }
